@@ -308,6 +308,8 @@ func runHealCase(c *checkCtx, cs healCase, can *canary) (res healResult) {
 				}
 			}()
 			time.Sleep(3*interval + 100*time.Millisecond)
+			waitUntil(5*time.Second, func() bool { return len(nw.sessionList()) >= cs.Pools })
+			time.Sleep(2 * time.Millisecond)
 			if n := len(nw.sessionList()); n != cs.Pools {
 				violate("after hot restart and the old server's exit the new listener holds %d sessions, expected %d (sessions replaced by the hot restart were rebuilt again)", n, cs.Pools)
 			}
@@ -380,6 +382,8 @@ func runHealCase(c *checkCtx, cs healCase, can *canary) (res healResult) {
 	return
 }
 
+var healExclusive sync.RWMutex
+
 func checkHeal(c *checkCtx) {
 	c.rule = "scenario list (one session lost, all lost, three losses in a row, server gone and back after 1..3 intervals, hot restart followed by the old " +
 		"server's exit and then a loss, SessionManager.Close, directed F3) x 1..3 pools x file/memfd x rebuild interval 60..200 ms, callers polling " +
@@ -403,6 +407,14 @@ func checkHeal(c *checkCtx) {
 		go func(cs healCase) {
 			defer wg.Done()
 			defer func() { <-sem }()
+			// the goroutine census of "manager-close" is process-wide: that scenario runs alone
+			if cs.Scenario == "manager-close" {
+				healExclusive.Lock()
+				defer healExclusive.Unlock()
+			} else {
+				healExclusive.RLock()
+				defer healExclusive.RUnlock()
+			}
 			res := runHealCase(c, cs, can)
 			if res.inconcl != "" {
 				res = runHealCase(c, cs, can)
